@@ -382,7 +382,10 @@ Definition do_filter (m : ubehav) (esc : bool) (f : name) (v : value) (args : li
     (* argtypes.rs::StringInput::preserve_safety: the result keeps the operand's safe bit *)
     Ok (VStr (match v with VStr b _ => b | _ => false end) r))
   else if f =? F_first then
-    match v with VList (x :: _) => Ok x | VList [] => Ok VUndef | _ => Err E_InvalidOperation end
+    match v with
+    | VList (x :: _) => Ok x | VList [] => Ok VUndef
+    | VMap ((k, _) :: _) => Ok k | VMap [] => Ok VUndef       (* the first key; `last` refuses maps (filters.rs::last: sequences and iterables only) *)
+    | _ => Err E_InvalidOperation end
   else if f =? F_last then
     match v with VList l => Ok (match rev l with x :: _ => x | [] => VUndef end) | _ => Err E_InvalidOperation end
   else if f =? F_replace then
